@@ -4,8 +4,24 @@
    Allocate / AllocateFromPool / additional-family / SetPools operations, where
    every allocation result is the one the implementation reported (validated by
    allocate_spec; a result the spec rejects leaves the state unchanged).
-   [shareable] is the statement's rule: same non-empty sharing key, same backend
-   key (both Cluster, or identical selectors), disjoint (protocol, port) sets. *)
+   [shareable]: same non-empty sharing key, same BACKEND KEY, disjoint (protocol,
+   port) sets.  The statement's clause "both Cluster policy or identical selectors"
+   is what the backend key is meant to encode; it does not (finding F7,
+   C01_backend_key_refuted below), so every theorem here is exclusivity up to
+   backend-key equality.
+   Domain: every Service has at least one port and no duplicate port (API server
+   rules).  [Model/Alloc.v] recomputes the allocator's derived maps from the
+   allocation list; the model that carries the Go maps and updates them
+   incrementally is Model/AllocMaps.v, on which exclusivity is proved for every
+   history inside the domain (C01_concrete_records_exclusive) and fails outside
+   it (C01_zero_port_refuted).
+   [wrun ... = Some w]: a history the model can take, i.e. every event is enabled
+   (the reconciled Service is queued, a re-sync is pending, ...) and every
+   allocator result reported by the implementation is admitted by the
+   specification; C01_oracle_exists_for_wellformed_pools shows that for uniquely
+   named, pairwise disjoint pools (what C08 accepts) an admitted result always
+   exists, so only implementation misbehaviour - detected by the correspondence
+   check - is excluded. *)
 From Coq Require Import List NArith.
 From Verif Require Import Model.Alloc Proofs.AllocP.
 
@@ -57,3 +73,110 @@ Theorem C01_statuses_exclusive : forall rank evs w s1 s2 o1 o2 x,
   exists al1 al2, get_alloc (c_mem (w_ctl w)) s1 = Some al1 /\ get_alloc (c_mem (w_ctl w)) s2 = Some al2 /\
                   shareable al1 al2.
 Proof. exact quiescent_status_exclusive. Qed.
+
+(* ---- the same, in terms of what the Services themselves carry ---- *)
+From Verif Require Import Proofs.AllocPolicyP Proofs.AllocMonoP Proofs.CtrlStarveP Proofs.CtrlPostP.
+
+(* whenever nothing is pending, what memory records for a Service carries the ports
+   and the sharing / backend key of the Service as it is now, and its status addresses *)
+Theorem C01_record_matches_spec_at_quiescence : forall rank evs w s o al,
+  wrun rank evs world0 = Some w -> quiescent w -> aget (w_api w) s = Some o ->
+  get_alloc (c_mem (w_ctl w)) s = Some al ->
+  a_ports al = r_ports (o_req o) /\ a_key al = r_key (o_req o) /\ same_ips (a_ips al) (o_status o).
+Proof. exact quiescent_record_matches_spec. Qed.
+
+Theorem C01_statuses_exclusive_specs : forall rank evs w s1 s2 o1 o2 x,
+  wrun rank evs world0 = Some w -> quiescent w -> s1 <> s2 ->
+  aget (w_api w) s1 = Some o1 -> aget (w_api w) s2 = Some o2 ->
+  In x (o_status o1) -> In x (o_status o2) ->
+  let k1 := r_key (o_req o1) in let k2 := r_key (o_req o2) in
+  sharing k1 <> 0%N /\ sharing k1 = sharing k2 /\ backend k1 = backend k2 /\
+  forall p, In p (r_ports (o_req o1)) -> ~ In p (r_ports (o_req o2)).
+Proof. exact quiescent_statuses_exclusive_specs. Qed.
+
+(* non-vacuity: a reachable quiescent world in which two Services share an address *)
+Definition c1_obj (port : N) : svcobj :=
+  {| o_lb := true; o_req := ex_req port; o_cluster_ok := true; o_want := WNone; o_want_pool := None;
+     o_status := []; o_annot := None |}.
+Definition c1_k : oracle := {| k_write := true; k_final := Some (1%N, [V4 167772160%N]) |}.
+Definition c1_pools1 : pools :=
+  {| by_name := [ {| p_name := 1%N; p_cidrs := [ {| pfam := F4; pbase := 167772160%N; plen := 32%N |} ];
+                     p_avoid := false; p_auto := true; p_pin := None |} ]; by_ns := []; by_sel := [] |}.
+Definition c1_evs : list ev :=
+  [EPools c1_pools1; UPut 1%N (c1_obj 80); UPut 2%N (c1_obj 443); EReload [1%N; 2%N] [c1_k; c1_k];
+   EReload [1%N; 2%N] [c1_k; c1_k]; ESvc 1%N c1_k; ESvc 2%N c1_k].
+Example C01_statuses_exclusive_nonvacuous :
+  exists w o1 o2, wrun ip_val c1_evs world0 = Some w /\ quiescent w /\
+    aget (w_api w) 1%N = Some o1 /\ aget (w_api w) 2%N = Some o2 /\
+    In (V4 167772160%N) (o_status o1) /\ In (V4 167772160%N) (o_status o2).
+Proof.
+  destruct (wrun ip_val c1_evs world0) as [w|] eqn:E; [|vm_compute in E; discriminate].
+  vm_compute in E. injection E as <-. eexists _, _, _. split; [reflexivity|]. split; [repeat split|].
+  split; [reflexivity|]. split; [reflexivity|]. split; left; reflexivity.
+Qed.
+
+(* ---- the backend key does not encode the statement's rule (finding F7) ---- *)
+(* k8salloc.BackendKey: the pod selector under the Local policy, "" under Cluster *)
+Definition backend_key_of (local : bool) (selector : list (N * N)) : list (N * N) :=
+  if local then selector else [].
+Definition statement_rule (l1 : bool) (s1 : list (N * N)) (l2 : bool) (s2 : list (N * N)) : Prop :=
+  (l1 = false /\ l2 = false) \/ s1 = s2.
+Theorem C01_backend_key_refuted :
+  exists l1 s1 l2 s2, backend_key_of l1 s1 = backend_key_of l2 s2 /\ ~ statement_rule l1 s1 l2 s2.
+Proof.
+  exists true, [], false, [(1%N, 1%N)]. split; [reflexivity|].
+  intros [[H _]|H]; discriminate.
+Qed.
+(* and conversely identical selectors under different policies get different keys (F7b) *)
+Theorem C01_backend_key_converse_refuted :
+  exists l1 s1 l2 s2, statement_rule l1 s1 l2 s2 /\ backend_key_of l1 s1 <> backend_key_of l2 s2.
+Proof.
+  exists true, [(1%N, 1%N)], false, [(1%N, 1%N)]. split; [right; reflexivity|discriminate].
+Qed.
+
+(* ---- the allocator with its maps; the domain ---- *)
+From Verif Require Import Model.AllocMaps Proofs.AllocMapsCohP Proofs.AllocMapsTopP.
+
+Theorem C01_concrete_records_exclusive : forall ops, Forall wf_op ops -> Inv (abs (m_run ops m_init)).
+Proof. intros ops H. exact (proj1 (proj2 (m_run_MInv ops m_init H MInv_init))). Qed.
+
+(* outside the domain (a tenant without ports) the Go bookkeeping forgets the sharing
+   key of an address that is still held, and a Service with another key is accepted on it *)
+Theorem C01_zero_port_refuted :
+  exists ops s1 s2 al1 al2 x, let a := abs (m_run ops m_init) in
+    s1 <> s2 /\ get_alloc a s1 = Some al1 /\ get_alloc a s2 = Some al2 /\
+    In x (a_ips al1) /\ In x (a_ips al2) /\ sharing (a_key al1) <> sharing (a_key al2).
+Proof.
+  exists (zero_port_ops ++ [OAssign 3%N (AllocMapsTopP.ex_req [p80] 9%N) [ex_ip]]), 2%N, 3%N.
+  eexists _, _, ex_ip. vm_compute. repeat split; try (left; reflexivity); discriminate.
+Qed.
+
+(* ---- which histories [wrun ... = Some w] leaves out ---- *)
+From Verif Require Import Proofs.CtrlTotalP.
+
+(* for uniquely named, pairwise disjoint pools every scheduler event that is enabled
+   has an admitted oracle: reconciling a queued Service and carrying out a pending
+   re-sync in any admitted order are always possible.  What the "observed result
+   must be admitted by the specification" rule excludes is therefore only an
+   implementation that deviates from the specification (reported by the
+   correspondence check), never a configuration C08 accepts. *)
+Theorem C01_oracle_exists_for_wellformed_pools : forall rank w s,
+  pools_wf (w_ctl w) -> In s (w_queue w) -> exists k w', wstep rank w (ESvc s k) = Some w'.
+Proof. exact esvc_enabled. Qed.
+
+Theorem C01_resync_oracles_exist_for_wellformed_pools : forall rank w order,
+  pools_wf (w_ctl w) -> w_reload w = true ->
+  (same_set order (map fst (w_api w)) && desc_by_status w order)%bool = true ->
+  exists ks w', wstep rank w (EReload order ks) = Some w'.
+Proof. exact ereload_enabled. Qed.
+
+(* and with overlapping pools the specification can be empty (the model has no successor) *)
+Definition c1_Q : pool := {| p_name := 1%N; p_cidrs := [ {| pfam := F4; pbase := 167772160%N; plen := 30%N |} ]; p_avoid := false; p_auto := true;
+   p_pin := Some {| prio := 0%N; nss := [2%N]; sels := [] |} |}.
+Definition c1_P : pool := {| p_name := 2%N; p_cidrs := [ {| pfam := F4; pbase := 167772160%N; plen := 30%N |} ]; p_avoid := false; p_auto := true; p_pin := None |}.
+Definition c1_overlap : st := {| s_pools := {| by_name := [c1_Q; c1_P]; by_ns := [(2%N, [1%N])]; by_sel := [] |}; allocated := [] |}.
+Example C01_overlapping_pools_have_no_admitted_result :
+  snd (step c1_overlap (OAllocate 5%N (AllocMapsTopP.ex_req [p80] 0%N) None)) = RSpecMismatch /\
+  snd (step c1_overlap (OAllocate 5%N (AllocMapsTopP.ex_req [p80] 0%N) (Some (2%N, [V4 167772160%N])))) = RSpecMismatch /\
+  snd (step c1_overlap (OAllocate 5%N (AllocMapsTopP.ex_req [p80] 0%N) (Some (1%N, [V4 167772160%N])))) = RSpecMismatch.
+Proof. vm_compute. repeat split. Qed.
